@@ -452,3 +452,6 @@ class C09(Prop):
 
 
 PROP = C09()
+
+PROP.rule += (" Strata added while closing seeded changes (DESIGN section 10): "
+              'stream re-wrap, header section behind ~A, hyphenated text/date columns, comment lines holding hyphens.')
